@@ -218,6 +218,6 @@ const prelude = `(set-option :produce-models true)
 (define-fun wfiface ((x Iface)) Bool (and (>= (ityp x) 0) (=> (= (ityp x) 0) (= (ival x) 0))))
 ; string built from a byte array window
 (declare-fun bstr ((Array Int Int) Int Int) Str)
-(assert (forall ((a (Array Int Int)) (o Int) (n Int)) (! (=> (>= n 0) (= (strlen (bstr a o n)) n)) :pattern ((bstr a o n)))))
-(assert (forall ((a (Array Int Int)) (o Int) (n Int) (i Int)) (! (=> (and (<= 0 i) (< i n)) (= (strat (bstr a o n) i) (select a (+ o i)))) :pattern ((strat (bstr a o n) i)))))
+(assert (forall ((a (Array Int Int)) (o Int) (n Int)) (! (=> (and (>= n 0) (<= n 1152921504606846976)) (= (strlen (bstr a o n)) n)) :pattern ((bstr a o n)))))
+(assert (forall ((a (Array Int Int)) (o Int) (n Int) (i Int)) (! (=> (and (<= 0 i) (< i n)) (= (strat (bstr a o n) i) (ite (and (<= 0 (select a (+ o i))) (<= (select a (+ o i)) 255)) (select a (+ o i)) (mod (select a (+ o i)) 256)))) :pattern ((strat (bstr a o n) i)))))
 `
